@@ -116,6 +116,21 @@ func observe(c Case, doc string) (assets, outlinks []string, note string) {
 		}
 		page.SetStatus(models.ItemArchived)
 	}
+	if s.Via == "redirect" {
+		// the seed was another URL that answered with a redirection to the page (postprocessItem's
+		// AddChild(.., ItemGotRedirected)); the page was then fetched with 200
+		other := map[string]string{"http": "https", "https": "http"}[c.Scheme]
+		su := &models.URL{Raw: other + "://old.example/moved/start.php?id=1", Hops: s.PageHops}
+		if err := su.Parse(); err != nil {
+			panic(err)
+		}
+		start := models.NewItem("n-start", su, "")
+		if err := start.AddChild(page, models.ItemGotRedirected); err != nil {
+			panic(err)
+		}
+		page.SetStatus(models.ItemArchived)
+		seed = start
+	}
 	if err := seed.CheckConsistency(); err != nil {
 		panic("harness built an inconsistent seed: " + err.Error())
 	}
